@@ -6,7 +6,7 @@
    outcome = VRes of the bytes written to stdout *)
 From Coq Require Import List NArith Bool String.
 From NV Require Import Lib.Val Lib.Res Lib.Wire Shell.Model.
-From NV Require Shell.Paths.
+From NV Require Shell.Paths Shell.PathAlg.
 Import ListNotations.
 Open Scope N_scope.
 
@@ -96,4 +96,15 @@ Definition dispatch (cmd : string) (a : val) : val :=
                       | None => VL []
                       | Some (img, pt, p) => VL [VS img; match pt with None => VL [] | Some n => VL [VN n] end; VS p]
                       end) (getL a))
+  else if String.eqb cmd "path_alg" then
+    (* [segments; other segments; a name] -> everything the algebra says about FatPath(fs, *segments) *)
+    let segs := getLs (arg 0 a) in
+    let other := getLs (arg 1 a) in
+    let nm := getS (arg 2 a) in
+    let parts := Shell.PathAlg.get_parts segs in
+    let opt o := match o with None => VL [] | Some l => VL [VLs l] end in
+    VL [VLs parts; VS (Shell.PathAlg.path_str parts); VS (Shell.PathAlg.name parts); VS (Shell.PathAlg.suffix parts);
+        VS (Shell.PathAlg.stem parts); VLs (Shell.PathAlg.parent parts); VLs (Shell.PathAlg.joinpath parts other);
+        opt (Shell.PathAlg.with_name parts nm); opt (Shell.PathAlg.relative_to parts other);
+        VB (Shell.PathAlg.is_absolute parts)]
   else VErr "unknown command".
